@@ -38,6 +38,9 @@ CONFIGS = [
     dict(name='lc_utf8', factor='LC_ALL', lc='C.UTF-8'),
     dict(name='lc_posix', factor='LC_ALL', lc='POSIX'),
     dict(name='after_other', factor='earlier run in same directory', after=True),
+    # the SAME schema once more in the same directory: the second run meets its own output (exppp decides whether an existing
+    # <schema>.exp is its own by looking at the banner; generators overwrite)
+    dict(name='after_same', factor='earlier run in same directory', after_same=True),
 ]
 
 # the schema run first in the 'after_other' configuration (every kind of per-schema file gets written)
@@ -60,8 +63,17 @@ END_SCHEMA;
 PROBE_BOUNDS = """SCHEMA c12_bound_probe;
 CONSTANT
   maxn : INTEGER := 4;
+  maxn2 : INTEGER := maxn;
+  maxn3 : INTEGER := maxn * 2 + 1;
+  maxn4 : INTEGER := c12_twice(maxn);
 END_CONSTANT;
+FUNCTION c12_twice(n : INTEGER) : INTEGER;
+  RETURN (n * 2);
+END_FUNCTION;
 TYPE vec = ARRAY [1:maxn] OF REAL; END_TYPE;
+TYPE vec2 = LIST [1:maxn2] OF REAL; END_TYPE;
+TYPE vec3 = BAG [0:maxn3] OF INTEGER; END_TYPE;
+TYPE vec4 = SET [1:maxn4] OF STRING; END_TYPE;
 ENTITY curve;
   pts : LIST [2:?] OF REAL;
   w : ARRAY [0:maxn] OF INTEGER;
@@ -72,6 +84,10 @@ END_ENTITY;
 ENTITY mesh;
   cnt : INTEGER;
   v : vec;
+  v2 : vec2;
+  v3 : OPTIONAL vec3;
+  v4 : vec4;
+  w4 : LIST [0:maxn4] OF REAL;
 END_ENTITY;
 ENTITY smesh SUBTYPE OF (mesh);
   counts : ARRAY [1:SELF\\mesh.cnt] OF INTEGER;
@@ -285,6 +301,15 @@ def run_item(g, it):
             t = {p: h for p, h in full.items() if p in base_tree or tree_b.get(p) != h}
             for p in sorted(set(tree_b) - set(full)):
                 report(cfg, 'any schema', file_class(tool, p), 'removes a file written by the earlier run', p, now_path)
+        elif cfg.get('after_same'):
+            U.fresh(cwd_main)
+            r0, cwd, _p = one(cfg, keep_cwd=True)
+            r, cwd, now_path = one(cfg, keep_cwd=True)
+            if r.timed_out or r0.timed_out:
+                res['timeouts'].append(cfg['name'])
+                continue
+            t = U.tree(cwd)
+            res['files'] += len(t)
         else:
             r, cwd, now_path = one(cfg)
             if r.timed_out:
